@@ -335,7 +335,50 @@ func checkIndexResultGuarded(r *Reporter, p *Prog, rule string, pkgs []string) {
 							guarded = append(guarded, e)
 						}
 					})
-					if w, only := f.OnlyThroughEdges(pt, guarded); only {
+					// ... or the use sits in the right operand of `guard && use` / `found-nothing || use`: it is
+					// evaluated only after the left operand excluded -1 (go/cfg keeps the whole condition as one node)
+					shortCircuit := false
+					{
+						isGuard := func(c ast.Expr, wantFound bool) bool {
+							ok := false
+							var conj func(e ast.Expr)
+							conj = func(e ast.Expr) {
+								e = ast.Unparen(e)
+								if b, isB := e.(*ast.BinaryExpr); isB && ((wantFound && b.Op == token.LAND) || (!wantFound && b.Op == token.LOR)) {
+									conj(b.X)
+									conj(b.Y)
+									return
+								}
+								rel, isRel := relOfWith(e, func(y ast.Expr) string { return f.KeyAt(y, pt) })
+								if !isRel {
+									return
+								}
+								if !wantFound {
+									rel = negRel(rel)
+								}
+								isIdx := func(k string) bool { return k == ik || k == ikAt }
+								switch {
+								case isIdx(rel.R) && (rel.L == "0" && (rel.Op == "<=" || rel.Op == "<") || rel.L == "-1" && (rel.Op == "<" || rel.Op == "!=")):
+									ok = true
+								case isIdx(rel.L) && rel.R == "-1" && rel.Op == "!=":
+									ok = true
+								}
+							}
+							conj(c)
+							return ok
+						}
+						ast.Inspect(fd.Body, func(m ast.Node) bool {
+							b, isB := m.(*ast.BinaryExpr)
+							if !isB || shortCircuit || (b.Op != token.LAND && b.Op != token.LOR) {
+								return !shortCircuit
+							}
+							if b.Y.Pos() <= nd.Pos() && nd.End() <= b.Y.End() && isGuard(b.X, b.Op == token.LAND) {
+								shortCircuit = true
+							}
+							return !shortCircuit
+						})
+					}
+					if w, only := f.OnlyThroughEdges(pt, guarded); only || shortCircuit {
 						r.Pass(rule, key, p.posStr(nd.Pos()), "the index result is known to be a position on every path")
 					} else {
 						r.Fail(rule, key, p.posStr(nd.Pos()), "the result of "+ikAt+" is used as a slice bound / index on a path that has not excluded -1 (nothing found): slice bounds out of range", w...)
